@@ -63,7 +63,10 @@ def check(ctx):
         # ... and accepted programs with one kind error injected (the checks after inference are the only guard of some casts)
         for t in valid[: (900 if ctx.thorough else 120)]:
             tx.append(c01.mutate_illtyped(ctx.rng, t))
-        tx += ['res /items on delete -> <status="gone">;\n', "let s = { 'code int };\nlet empty = <status=s>;\nres /items on delete -> empty;\n",
+        tx += ["let @pair = { 'first rec x { 'next x }, 'second x };\nres / on get -> <@pair>;\n",
+               "res /tree on get -> (rec x { 'label str, 'children [x] });\nres /node on get -> <x>;\n",
+               "let f y = { 'a y };\nlet g = { 'b y };\nres / on get -> <g>;\n",
+               'res /items on delete -> <status="gone">;\n', "let s = { 'code int };\nlet empty = <status=s>;\nres /items on delete -> empty;\n",
                'res /i on get -> <media=12>;\n', "res /i on get -> <headers=num>;\n"]
         tx += ["let a = { 'p (f a) };\nlet f x = g x;\nlet g x = f x | a;\nres / on get -> a;\n",
                "let f x = f x;\nlet a = { 'x a };\nres / on get -> <f a>;\n",
